@@ -67,8 +67,11 @@ def gen(rng, tier):
         yield {"segs": [["list", ["filter", ["not", ["self", ["sel", ["name", "a"]]]]]]], "doc": [v, {"a": v}, {}], "seed": 6}
     # match / search against strings that end in a line feed (a full match is not "matches up to a final line feed"),
     # contain one, or are empty
-    strs = ["ab", "ab\n", "a", "a\n", "\n", "", "b\n", "aab\n\n", "é\n", "a\nb", "\na", "1\n", "ab\r", "ab\r\n"]
-    for pat in Q.PATTERNS + ["ab", "[a-z]*", "a\\nb", "(a|ab)", ".*", "a.", ".b", "", "a*", "[^b]*"]:
+    strs = ["ab", "ab\n", "a", "a\n", "\n", "", "b\n", "aab\n\n", "é\n", "a\nb", "\na", "1\n", "ab\r", "ab\r\n", "-", ".", "z", "^", "]", "0", "/",
+            "9", "+", ",", "\u212a", "\u017f", "k", "K", "s"]
+    # character classes with dashes, escapes and carets at every position (where a range starts and ends)
+    CLASSES = ["[\\.-z]", "[a\\--z]", "[-a]", "[a-]", "[a^]", "[^\\.-0]", "[a-z-9]", "[--a]", "[\\]-a]", "[-\\.-z^a-]", "[+--]", "[\\-]", "[^-]", "[.]", "[a.]"]
+    for pat in Q.PATTERNS + ["ab", "[a-z]*", "a\\nb", "(a|ab)", ".*", "a.", ".b", "", "a*", "[^b]*"] + CLASSES:
         for fn in ("match", "search"):
             doc = strs + [{"s": x, "p": pat} for x in strs]
             yield {"segs": [["list", ["filter", ["fn", fn, ["self"], ["lit", pat]]]]], "doc": doc, "seed": 7}
